@@ -252,11 +252,21 @@ class Echo(object):
         return b.deserialized()
 
 
+ANNOTATE = [False]
+
+
+class AnnotatingDaemon(server.Daemon):
+    """replies carry an annotation when ANNOTATE is on (a message with annotations reaches the deserializer as a memoryview slice, not as bytes)"""
+
+    def annotations(self):
+        return {"XTRA": b"reply-annotation"} if ANNOTATE[0] else {}
+
+
 class Wire:
     def __init__(self):
         self.saved = (config.SERVERTYPE, config.COMPRESSION, config.SERIALIZER)
         config.SERVERTYPE = "thread"
-        self.daemon = server.Daemon(host="127.0.0.1", port=0)
+        self.daemon = AnnotatingDaemon(host="127.0.0.1", port=0)
         self.uri = self.daemon.register(Echo(), "echo")
         self.thread = threading.Thread(target=self.daemon.requestLoop, daemon=True)
         self.thread.start()
@@ -278,8 +288,11 @@ class Wire:
         config.SERVERTYPE, config.COMPRESSION, config.SERIALIZER = self.saved
 
 
-def check_wire(w, name, ser, v, lossless, compression):
-    desc = {"serializer": name, "value": repr(v)[:300], "compression": compression, "over": "real daemon"}
+def check_wire(w, name, ser, v, lossless, compression, annotated=False):
+    desc = {"serializer": name, "value": repr(v)[:300], "compression": compression, "annotated_messages": annotated, "over": "real daemon"}
+    ANNOTATE[0] = annotated
+    from Pyro5.callcontext import current_context as _ctx
+    _ctx.annotations = {"XREQ": b"request-annotation"} if annotated else {}
     try:
         expect = ser.loads(ser.dumps(v))
     except Exception:      # noqa
@@ -397,9 +410,9 @@ def main(mode):
             wire_vals += [(["x" * 500, {"k": list(range(100))}], True), ([2 ** 200] * 30, True)]     # above the compression threshold
             for name, ser in sers:
                 for v, lossless in wire_vals:
-                    for compression in (False, True):
+                    for compression, annotated in ((False, False), (True, False), (False, True), (True, True)):
                         runs += 1
-                        r = check_wire(w, name, ser, v, lossless, compression)
+                        r = check_wire(w, name, ser, v, lossless, compression, annotated)
                         if isinstance(r, str):
                             if r[6:] not in KNOWN:
                                 KNOWN.append(r[6:])
@@ -410,7 +423,7 @@ def main(mode):
     rep = {"runs": runs, "failing_input": fail, "known_findings_reproduced": KNOWN, "wall_s": round(time.time() - t0, 2),
            "bounded": [{"what": "real serializers on both paths and a real daemon (echo, batch, stream; compression on/off): lossless core exactness, "
                                 "argument/result symmetry per position, idempotence of the mapping",
-                        "bound": "%d serializers x (%d lossless-core + %d extended generated values, depth <= 4); %d values x 2 compression settings over the wire"
+                        "bound": "%d serializers x (%d lossless-core + %d extended generated values, depth <= 4); %d values x 2 compression settings x messages with / without annotations over the wire"
                                  % (len(sers), len(core), len(ext), 0 if fail else len(wire_vals)),
                         "runs": runs, "failures": 0 if fail is None else 1}]}
     print(json.dumps(rep))
